@@ -52,6 +52,13 @@ Theorem merge_headers : forall p0 rest q,
 Proof. exact merge_headers_lemma. Qed.
 Print Assumptions merge_headers.
 
+(* period = maximum, outside the known-finding class F25 (a negative period among the inputs) *)
+Theorem merge_period_max : forall p0 rest q,
+  in_F25 (p0 :: rest) = false -> merge (p0 :: rest) = MOk q ->
+  p_period q = spec_period (map p_period (p0 :: rest)).
+Proof. exact merge_period_max_lemma. Qed.
+Print Assumptions merge_period_max.
+
 (* what "de-duplicated union in order" means *)
 Theorem comments_dedup_is_union : forall l, NoDup (dedup l) /\ forall x, In x (dedup l) <-> In x l.
 Proof. intros l. split; [apply dedup_nodup | apply dedup_in]. Qed.
@@ -128,6 +135,21 @@ Example hypotheses_satisfiable :
 Proof.
   split; repeat constructor.
 Qed.
+(* F25: inside the class the documented rule is not what the code computes: periods [0; -5]
+   give -5, the maximum is 0 (merge.go:490 treats a zero running value as "unset") *)
+Definition f25_prof (pd : Z) : profile :=
+  {| p_sampletype := [ex_vt]; p_defaultsampletype := ""; p_sample := []; p_mapping := []; p_location := [];
+     p_function := []; p_comments := []; p_docurl := ""; p_dropframes := ""; p_keepframes := "";
+     p_timenanos := 0; p_durationnanos := 0; p_periodtype := Some ex_vt; p_period := pd |}.
+Theorem merge_period_max_refuted :
+  exists ps q, Forall (fun p => valid_b p = true) ps /\ merge ps = MOk q /\
+               p_period q <> spec_period (map p_period ps).
+Proof.
+  exists [f25_prof 0; f25_prof (-5)]. eexists. split; [repeat constructor|].
+  split; [vm_compute; reflexivity|]. vm_compute. discriminate.
+Qed.
+Print Assumptions merge_period_max_refuted.
+
 (* a sum that cancels takes the re-merge path and disappears *)
 Example cancel_example :
   match merge [ex_prof 7 9 5 0; ex_prof 2 3 (-5) 40] with MOk q => p_sample q = [] | _ => False end.
